@@ -14,7 +14,7 @@ import (
 )
 
 func init() {
-	register("C05", false, true, checkC05)
+	register("C05", true, true, checkC05)
 }
 
 type callSite struct {
@@ -25,6 +25,22 @@ type callSite struct {
 	inLoop bool
 	inLit  bool // inside a function literal
 	deferd bool // the literal is the operand of a defer statement
+}
+
+// usersOfDecl: the call expressions in package p whose static callee is f.
+func (w *World) usersOfDecl(p *packages.Package, f *types.Func) []*ast.CallExpr {
+	var out []*ast.CallExpr
+	for _, file := range p.Syntax {
+		ast.Inspect(file, func(n ast.Node) bool {
+			if c, ok := n.(*ast.CallExpr); ok {
+				if g, _ := typeutil.Callee(p.TypesInfo, c).(*types.Func); g == f {
+					out = append(out, c)
+				}
+			}
+			return true
+		})
+	}
+	return out
 }
 
 // callSitesOf finds every call in the fork packages whose static callee satisfies pred.
@@ -56,9 +72,27 @@ func (w *World) callSitesOf(pred func(f *types.Func) bool) []callSite {
 					if !ok {
 						return true
 					}
-					fo, ok := typeutil.Callee(p.TypesInfo, call).(*types.Func)
+						fo, ok := typeutil.Callee(p.TypesInfo, call).(*types.Func)
+					if ok && !pred(fo) {
+						// a forwarding helper stands for the call in its body (forward.go)
+						if in := w.forwardedCall(p, call); in != nil {
+							if fo2, ok2 := typeutil.Callee(p.TypesInfo, in).(*types.Func); ok2 && pred(fo2) {
+								call, fo = in, fo2
+							}
+						}
+					}
 					if !ok || !pred(fo) {
 						return true
+					}
+					// the call inside a forwarding helper is reported at the helper's callers instead
+					if len(fd.Body.List) == 1 && fd.Type.Results == nil {
+						if es, isEs := fd.Body.List[0].(*ast.ExprStmt); isEs && es.X == ast.Expr(call) {
+							if self, _ := p.TypesInfo.Defs[fd.Name].(*types.Func); self != nil {
+								if us := w.usersOfDecl(p, self); len(us) > 0 && w.forwardedCall(p, us[0]) != nil {
+									return true
+								}
+							}
+						}
 					}
 					cs := callSite{pkg: p, fn: pkgShortOf(path) + "." + declRelName(fd), call: call, decl: fd}
 					for i, s := range stack {
@@ -133,6 +167,15 @@ func checkC05(w *World, tier string) *Report {
 	addR55(w, r)
 	addR56(w, r)
 	r.Assumptions = append(r.Assumptions, "the host does not toggle EVM.IsExecuteJP between the pre and post site of one call", "aspect-core's handling of the message (number and order of Aspects) is external")
+	// shared rules (fourth batch of seeded changes): what the post-call join point is told the callee returned and had
+	// left is what interpreter.Run returned and what the frame had left — Run is the reference's (a single-exit rewrite
+	// that hands back a stale result with an error reaches the join point), and the gas argument of the post-call
+	// join point is defined only by gas = contract.Gas (C06 R6.1)
+	w.e1().cloneRule(r, "R5.7", pkVM, func(name string, pr *PairResult) bool { return name == "(*EVMInterpreter).Run" })
+	r.need("R5.7", 1)
+	emitSiteRule(w, r, "R6.1")
+	emitReturnRule(w, r, "R6.1", func(fn string) bool { return fn == "(*EVM).Call" })
+	r.Explanation += " R5.7 (*EVMInterpreter).Run is an SSA clone of the reference: the result the post-call join point is given is what the callee returned; R6.1 (shared with C06) the gas argument of the post-call join point is defined only by gas = contract.Gas."
 	return r
 }
 
